@@ -40,11 +40,13 @@ def FactsOK : Bool :=
   -- calculateAndCheckRuleHash: the stamp is written only after a successful (or waived) check
   C35.calcOrder == ["OutputHash", "checkRuleHashes", "writeRuleHash"] && C35.calcGate == "state.VerifyHashes" &&
   C35.calcGateReturnsErr &&
-  -- buildTarget: moveOutputs → check (error returns) → storeInCache; filegroup check inside `if changed`
+  -- buildTarget: moveOutputs → check (error returns) → storeInCache
   C35.buildTargetOrder == ["needsBuilding", "needsBuilding", "buildFilegroup", "calculateAndCheckRuleHash", "retrieveArtifacts",
     "writeRuleHash", "retrieveArtifacts", "build", "StoreTargetMetadata", "moveOutputs", "calculateAndCheckRuleHash",
     "storeInCache", "storeInCache"] &&
-  C35.buildCheckErrReturns && C35.buildMoveBeforeCheck && C35.buildStoreAfterCheck && C35.fgCheckInsideChanged &&
+  C35.buildCheckErrReturns && C35.buildMoveBeforeCheck && C35.buildStoreAfterCheck &&
+  -- filegroups: checked whenever hashes are declared, not only when a link changed
+  !C35.fgCheckInsideChanged && C35.fgCheckCoversDeclared &&
   -- retrieveArtifacts / Build
   C35.retrieveOnFail == ["RemoveOutputs", "return false"] &&
   C35.retrieveOrder == ["retrieveFromCache", "calculateAndCheckRuleHash", "RemoveOutputs"] && C35.buildErrRemovesOutputs &&
@@ -55,5 +57,8 @@ def FactsOK : Bool :=
   C35.ruleHashCoversHashes &&
   -- the records the model runs with are the ones the theorems are about
   genU == UFacts.asCoded && genC == CFacts.asCoded && genS == SFacts.asCoded
+
+/-- Does a change of `build.hashcheckers` change the key (stamp, cache key) of a target that declares hashes? -/
+def keyCoversCheckers : Bool := C35.ruleHashCoversHashCheckers || C35.configHashCoversHashCheckers
 
 end PlzVerif.HashCheck
